@@ -599,6 +599,15 @@ func (e *SpecEnv) evalSel(x *SX) (*SV, error) {
 		return e.lookupPkgObj(pm.P, x.Name)
 	}
 	t := b.T
+	if tv, ok := b.V.(*TupleV); ok && len(x.Name) >= 2 && x.Name[0] == 'r' {
+		// component of a multi-valued call result: f(x).r0, .r1, ...
+		var i int
+		if _, err := fmt.Sscanf(x.Name[1:], "%d", &i); err == nil && i < len(tv.Vs) {
+			if tt, ok := b.T.(*types.Tuple); ok && i < tt.Len() {
+				return &SV{V: tv.Vs[i], T: tt.At(i).Type(), St: b.St}, nil
+			}
+		}
+	}
 	if t == nil {
 		return nil, fmt.Errorf("selector %s on untyped value", x.Name)
 	}
@@ -824,13 +833,17 @@ func (e *SpecEnv) evalCall(x *SX) (*SV, error) {
 				return nil, err
 			}
 			st := e.stateOf(v)
-			key := "ghost:sent<" + types.TypeString(v.T, qualShort) + ">"
+			key := "ghost:sent<" + chanKey(v.T) + ">"
 			ki := e.vc.reg.get(key, 1, IntSort, nil)
 			return &SV{V: Select(st.heapVar(ki), st.toTerm(e.value(v), v.T)), T: types.Typ[types.Int]}, nil
 		}
 		if sf, ok := e.vc.prog.CS.SpecFuncs[fn.Name]; ok {
 			return e.applySpecFunc(sf, args)
 		}
+	}
+	// call of a real Go function or method (executed symbolically on a scratch copy of the state)
+	if r, ok, err := e.callGo(fn, args); ok {
+		return r, err
 	}
 	// type conversion T(x)
 	tv, err := e.eval(fn)
@@ -978,4 +991,122 @@ func (e *SpecEnv) evalLoc(x *SX) (p *PtrV, all bool, err error) {
 		return nil, false, fmt.Errorf("modifies item %s is not a location", x)
 	}
 	return v.Place, false, nil
+}
+
+
+// callGo evaluates f(args) or x.m(args) where f/m is a function of the repository: the callee's contract is
+// applied if it has one, otherwise its body is executed symbolically. Effects are confined to a copy of the state.
+func (e *SpecEnv) callGo(fn *SX, args []*SX) (*SV, bool, error) {
+	var obj *types.Func
+	var recv *SV
+	switch fn.K {
+	case "id":
+		if _, shadow := e.vars[fn.Name]; shadow || e.pkg == nil {
+			return nil, false, nil
+		}
+		if o, ok := e.pkg.Scope().Lookup(fn.Name).(*types.Func); ok {
+			obj = o
+		}
+	case "sel":
+		base, err := e.eval(fn.A[0])
+		if err != nil {
+			return nil, false, nil
+		}
+		if pm, ok := base.V.(pkgMarker); ok {
+			if o, ok := pm.P.Scope().Lookup(fn.Name).(*types.Func); ok {
+				obj = o
+			}
+			break
+		}
+		if base.T == nil {
+			return nil, false, nil
+		}
+		o, _, _ := types.LookupFieldOrMethod(base.T, true, e.pkgForLookup(base.T), fn.Name)
+		if f, ok := o.(*types.Func); ok {
+			obj = f
+			recv = base
+		}
+	}
+	if obj == nil {
+		return nil, false, nil
+	}
+	sfn := e.vc.prog.SSA.FuncValue(obj)
+	if sfn == nil {
+		return nil, true, fmt.Errorf("no SSA for function %s", obj.FullName())
+	}
+	sig := obj.Type().(*types.Signature)
+	st := e.st.clone()
+	st.defers = nil
+	var vals []Val
+	if recv != nil {
+		rv := e.value(recv)
+		rt := sig.Recv().Type()
+		_, wantPtr := under(rt).(*types.Pointer)
+		_, havePtr := under(recv.T).(*types.Pointer)
+		switch {
+		case wantPtr && !havePtr:
+			if recv.Place != nil {
+				rv = recv.Place
+			} else {
+				ref := e.vc.freshRef()
+				st.storeKey(PHeap, typeKey(recv.T), ref, nil, recv.T, rv)
+				rv = &PtrV{Kind: PHeap, Base: ref, Key: typeKey(recv.T), Elem: recv.T}
+			}
+		case !wantPtr && havePtr:
+			rv = st.load(asPtr(rv, under(recv.T).(*types.Pointer).Elem()))
+		}
+		vals = append(vals, rv)
+	}
+	if len(args) != sig.Params().Len() {
+		return nil, true, fmt.Errorf("call of %s with %d arguments, want %d", obj.Name(), len(args), sig.Params().Len())
+	}
+	for i, a := range args {
+		v, err := e.eval(a)
+		if err != nil {
+			return nil, true, err
+		}
+		pt := sig.Params().At(i).Type()
+		v = e.coerce(v, pt)
+		val := e.value(v)
+		if _, isIface := under(pt).(*types.Interface); isIface {
+			if _, already := val.(*IfaceV); !already && v.T != nil {
+				val = e.vc.makeIface(st, val, v.T)
+			}
+		}
+		if sq, ok := val.(*SeqV); ok {
+			// a quantified sequence passed to real code: materialise it as a fresh backing array
+			ref := e.vc.freshRef()
+			et := under(pt).(*types.Slice).Elem()
+			ki := e.vc.reg.get(elemKey(et), 2, scalarSort(et), IntSort)
+			st.heap[ki.Name] = Store(st.heapVar(ki), ref, sq.A)
+			val = &SliceV{ref, IntC(0), sq.Len, sq.Len}
+		}
+		vals = append(vals, val)
+	}
+	var rt types.Type = sig.Results()
+	if sig.Results().Len() == 1 {
+		rt = sig.Results().At(0).Type()
+	}
+	fx := e.fx
+	if fx == nil {
+		fx = &FuncCtx{fn: sfn}
+	}
+	savedSafe := e.vc.safe
+	e.vc.safe = false
+	var res Val
+	fcx := e.vc.prog.ContractForFunc(sfn)
+	if len(sfn.Blocks) > 0 && (fcx == nil || fcx.Flags["inline"]) && len(e.vc.inlineStk) < maxInlineDepth {
+		// functions named in a specification are executed, not abstracted
+		saved := e.vc.inlineLimit
+		e.vc.inlineLimit = 400
+		res = e.vc.inline(fx, st, sfn, vals, nil, rt)
+		e.vc.inlineLimit = saved
+	} else {
+		res = e.vc.callFunction(fx, st, sfn, vals, nil, rt, nil)
+	}
+	e.vc.safe = savedSafe
+	if res == nil {
+		return nil, true, fmt.Errorf("%s returns no value", obj.Name())
+	}
+	return &SV{V: res, T: rt, St: st}, true, nil
 }
